@@ -147,7 +147,7 @@ plugin any more) the old callbacks are re-added; in every failing case nothing *
 the result is the old list without the reloaded name, or has it back. -/
 theorem reload_failure_partial (ord : Ord) (cbs : Cbs) (name : Name) (avail : Option Plugin) (f : Faults)
     (h1 : f.importError = false) (h2 : avail.isSome)
-    (hf : f.importOther = true ∨ f.dieRaises = true ∨ f.ctorRaises = true)
+    (hf : f.importOther = true ∨ f.ctorRaises = true)
     (hno : isOwnerName name = false) (hl : ((removeCallback cbs name).1).isEmpty = false) :
     reload ord cbs name avail f = (.exception, (removeCallback cbs name).2) := by
   unfold reload
@@ -156,16 +156,11 @@ theorem reload_failure_partial (ord : Ord) (cbs : Cbs) (name : Name) (avail : Op
   | none => cases h2
   | some p =>
     simp only [Option.isNone_some, Bool.false_eq_true, if_false]
-    rcases hf with hf | hf | hf
+    rcases hf with hf | hf
     · simp [hf]
     · by_cases hx : f.importOther = true
       · simp [hx]
       · simp [hx, hf]
-    · by_cases hx : f.importOther = true
-      · simp [hx]
-      · by_cases hy : f.dieRaises = true
-        · simp [hx, hy]
-        · simp [hx, hy, hf]
 
 /-- **self_reference_counter** (finding C20-self-reference).  A plugin that names itself in
 `callBefore` is accepted and all its constraints are dropped (the assertion in `callPrecedence` is
